@@ -122,8 +122,59 @@ def traceJudge (f : List String) (out : String) : String :=
     | none => "bad:unparsable:" ++ out
     | some segs => Casket.LifecycleSpec.verdict ops segs
 
+
+/-! c16.signal  op op …  !<signals>      (real signals to a child process)
+      out = <result of every op>;<events after READY>;exit=<code> -/
+
+def parseSig : String → Option Sig
+  | "TERM" => some .term | "INT" => some .int | "QUIT" => some .quit | "HUP" => some .hup
+  | _ => none
+
+def parseSignalCase (f : List String) : Option (List Op × List Sig) :=
+  match f.reverse with
+  | last :: revOps =>
+    if !last.startsWith "!" then none else do
+    let sigs ← ((last.drop 1).toString.splitOn ",").mapM parseSig
+    let ops ← revOps.reverse.mapM parseOp
+    if ops.isEmpty || (deciding sigs).isNone then none else
+    if ops.all (fun o => match o with | .start _ => true | .restart _ => true | _ => false) then some (ops, sigs) else none
+  | [] => none
+
+def signalModel (f : List String) : String :=
+  match parseSignalCase f with
+  | none => "bad-case"
+  | some (ops, sigs) =>
+    let s := stateAfter State.init ops
+    let r := sigRun s sigs
+    let res := ",".intercalate ((run ops).map fun x => showRes x.1.res)
+    let ex := match r.2 with | some n => toString n | none => "timeout"
+    s!"{res};{",".intercalate (r.1.map showEvent)};exit={ex}"
+
+/-- the instances alive after the setup operations, from the OBSERVED results -/
+def liveAfter (led : Casket.LifecycleSpec.Ledger) : List Op → List Res → Casket.LifecycleSpec.Ledger
+  | op :: ops, r :: rs => liveAfter (Casket.LifecycleSpec.advance led op ⟨r, []⟩) ops rs
+  | _, _ => led
+
+def signalJudge (f : List String) (out : String) : String :=
+  match parseSignalCase f with
+  | none => if out = "bad-case" then "ok" else "bad:malformed-case-accepted:" ++ out
+  | some (ops, sigs) =>
+    match out.splitOn ";" with
+    | [rs, es, ex] =>
+      match (if rs = "" then some [] else (rs.splitOn ",").mapM parseRes),
+            (if es = "" then some [] else (es.splitOn ",").mapM parseEvent) with
+      | some results, some events =>
+        if results.length != ops.length then "bad:length:results" else
+        let led := liveAfter Casket.LifecycleSpec.Ledger.init ops results
+        match Casket.LifecycleSpec.signalPathLaw led.live sigs events (ex != "exit=timeout") with
+        | none => "ok"
+        | some c => s!"bad:{c}:signal path"
+      | _, _ => "bad:unparsable:" ++ out
+    | _ => "bad:unparsable:" ++ out
+
 def streams : List Driver.Stream := [
-  { name := "c16.trace", model := traceModel, judge := traceJudge }
+  { name := "c16.trace", model := traceModel, judge := traceJudge },
+  { name := "c16.signal", model := signalModel, judge := signalJudge }
 ]
 
 end Driver.C16
